@@ -53,6 +53,7 @@ class Ctx:
         self.explanation = ''
         self.known = [k for k in load_known() if k['property'] == pid and k['status'] == 'known']
         self.vacuity = []
+        self.sig_hist = {}
 
     # ---------------------------------------------------------------- tiers
     @property
@@ -188,6 +189,8 @@ class Ctx:
             print('  ' + what[:600])
             sys.stdout.flush()
         self.violations.append(what)
+        h = self.sig_hist.setdefault(json.dumps(_jsonable(sig), sort_keys=True, default=str), [0, what[:700]])
+        h[0] += 1
         return True
 
     # ---------------------------------------------------------------- evidence
@@ -196,6 +199,8 @@ class Ctx:
             print('KNOWN-FINDING: property=%s %s [%s; %d case(s) this run]' % (self.pid, k['what'], kid, n))
         for v in self.vacuity:
             print('VACUITY-WARNING: ' + v)
+        for sg, (cnt, first) in sorted(self.sig_hist.items(), key=lambda kv: -kv[1][0]):
+            print('  violation signature x%d %s e.g. %s' % (cnt, sg, first), file=sys.stderr)
         cov = dict(
             states=self.states, transitions=self.transitions,
             traces_validated_against_impl=self.traces,
